@@ -79,9 +79,16 @@ pub fn random_case(r: &mut Rng, max_events: usize) -> Case {
     let mut t = 0;
     let gaps = [0u64, 0, 1, 2, 5, 10, 60];
     let mut acts = vec![];
+    let unterminated = term.is_none();
     for n in items.into_iter().chain(term) {
       t += gaps[r.below(gaps.len())] * MS;
       acts.push(TAct { t, act: Act::In(0, n) });
+    }
+    // half of the unterminated scripts: the program lets its handle go and the source drops
+    // its observers while items may still be on their way; they are still owed
+    if unterminated && r.chance(1, 2) {
+      t += gaps[r.below(gaps.len())] * MS;
+      acts.push(TAct { t, act: Act::Gone(0) });
     }
     (None, acts)
   };
@@ -222,6 +229,9 @@ pub fn run(cfg: &Cfg, rep: &mut Report) {
       continue;
     }
     let c = random_case(&mut r, maxev);
+    if c.acts.iter().any(|a| matches!(a.act, Act::Gone(_))) {
+      rep.count("scripts_whose_source_goes_away_unterminated", 1);
+    }
     rep.evaluations += 1;
     let o = observe(&c);
     let fl = if c.flavor == Flavor::Threads { "_threads" } else { "" };
